@@ -250,6 +250,50 @@ def length_in_set(nbits: int, b: pydsdl.BitLengthSet, expanded) -> bool:
 _cache: dict = {}
 
 
+class _Unencodable:
+    def __repr__(self):
+        return "<unencodable>"
+
+
+def _poison(v):
+    """v with its LAST leaf replaced by an object no field can encode."""
+    if isinstance(v, dict) and v:
+        k = list(v)[-1]
+        return {**v, k: _poison(v[k])}
+    if isinstance(v, list) and v:
+        return v[:-1] + [_poison(v[-1])]
+    return _Unencodable()
+
+
+def _leaf_paths(v, path=()):
+    if isinstance(v, dict) and v:
+        for k in v:
+            yield from _leaf_paths(v[k], path + (k,))
+    elif isinstance(v, list) and v:
+        for i, x in enumerate(v):
+            yield from _leaf_paths(x, path + (i,))
+    else:
+        yield path
+
+
+def _replace_at(v, path, new):
+    if not path:
+        return new
+    if isinstance(v, dict):
+        return {**v, path[0]: _replace_at(v[path[0]], path[1:], new)}
+    return v[: path[0]] + [_replace_at(v[path[0]], path[1:], new)] + v[path[0] + 1 :]
+
+
+def poisoned_variants(v, limit=8):
+    """v with ONE leaf at a time (every position, at most `limit`) replaced by an object no field can encode: the failure then comes at
+    every depth, after every number of members already written."""
+    paths = list(_leaf_paths(v))
+    if len(paths) > limit:
+        step = len(paths) / limit
+        paths = [paths[int(i * step)] for i in range(limit - 1)] + [paths[-1]]
+    return [_replace_at(v, p, _Unencodable()) for p in paths if p]
+
+
 def _reorder(v):
     """The same value with the keys of every dict inserted in reverse order."""
     if isinstance(v, dict):
@@ -297,6 +341,22 @@ def check_case(case, R: engine.Acc):
         R.case([desc, repr(v)], nontrivial=(len(want) >= 2 or sub), sample=(vi == 3 and len(desc[1]) == 3 and desc[0] == "struct"))
         R.counters["reference_traces"] += 1
         V_ = lambda fp, clause, obs, exp: R.violation(fp, clause, one, observed=obs, expected=exp)  # noqa: E731
+        if vi % 2 == 0:
+            # a FAILED call first: the same value with its last leaf replaced by something that cannot be encoded (the failure comes
+            # after the leading members were written, possibly deep inside nested delimited objects) - whatever it leaves behind
+            # must not reach the next call
+            for pv in poisoned_variants(v):
+                try:
+                    pydsdl.serialize(t, pv)
+                    R.counters["poisoned_value_accepted"] += 1
+                except Exception:  # noqa
+                    R.counters["failed_calls_before_valid_ones"] += 1
+                try:
+                    if pydsdl.serialize(t, v) != want:
+                        V_("wire-bytes-after-a-failed-call", "serialize produces exactly the Specification's encoding, whatever call failed before", {"failed": repr(pv)[:200]}, want.hex())
+                        break
+                except Exception:  # noqa (reported by the main comparison below)
+                    break
         try:
             got = pydsdl.serialize(t, v)
         except Exception as ex:  # noqa
